@@ -231,6 +231,14 @@ Theorem C17_connect_subgraphs : forall h A B dA dB conns, WF h A -> WF h B ->
 Proof. exact connect_subgraphs_good. Qed.
 Print Assumptions C17_connect_subgraphs.
 
+(* reduce_mutation removes a subtree: like single_drop it never returns an empty graph (a sink other
+   than the removed node survives delete_subtree; update_subtree inserts a node) *)
+Theorem C17_reduce_nonempty : forall min_arity tries h g h' g', WF h g -> acyclic h g -> g <> [] ->
+  (forall v onn, In (v, onn) tries -> In v g) ->
+  run_mut (MReduce min_arity tries) (h, g) = Ok (h', g') -> g' <> [].
+Proof. exact reduce_nonempty. Qed.
+Print Assumptions C17_reduce_nonempty.
+
 (* ---------------------------------------------------------------- the hypotheses are satisfiable *)
 (* a diamond with a tail: 0 <- {1, 2} <- 3 (3 is a parent of 1 and 2), 4 isolated *)
 Definition ex_h : heap :=
@@ -303,4 +311,10 @@ Proof. vm_compute. reflexivity. Qed.
 Example ex_cx_subgraph_edgeless :
   both_wf (run_cx (XSubgraph (mkSub None [] None [] [] []))
                   ([mkNode 1 0 [] true; mkNode 2 1 [] true; mkNode 1 0 [] true], ([0; 1], [2]))) = true.
+Proof. vm_compute. reflexivity. Qed.
+
+(* the single sink listed LAST is still excluded from the candidates of reduce_mutation *)
+Example ex_reduce_root_last :
+  run_mut (MReduce 1 [(3, None); (0, None)]) ([mkNode 1 0 [] true; mkNode 2 0 [0] true; mkNode 3 0 [0] true; mkNode 4 1 [1; 2] true], [0; 1; 2; 3])
+  = Ok ([mkNode 1 0 [] true; mkNode 2 0 [0] true; mkNode 3 0 [0] true; mkNode 4 1 [1; 2] true], [0; 1; 2; 3]).
 Proof. vm_compute. reflexivity. Qed.
